@@ -334,6 +334,9 @@ impl Compiler {
             self.compile_statement(stmt)?;
         }
         self.scopes[self.scope_index].scope_depth -= 1;
+        // The bindings of the block go out of scope with it
+        let depth = self.scopes[self.scope_index].scope_depth;
+        self.symtab.leave_block(depth);
         Ok(())
     }
 
